@@ -553,8 +553,16 @@ def mon_C08(rng, budget, tier):
                     sg = gen.logu(rng, 1e-4, 10) * beta
                 team.append((mu, sg))
             nums.append(team)
+        if rng.random() < 0.35:
+            # polarised: every team entirely at +m or -m (largest gaps between team totals), small sigma, large teams
+            m_ = rng.choice([6.0, 12.0, 16.0, 20.0, 20.0])
+            sg_ = rng.choice([1e-4, 1e-4, 0.1, 1.0])
+            n = rng.choice([2, 2, 2, 3, 4])
+            shape = [rng.choice([2, 3, 5, 10, 13, 16, 16, 16]) for _ in range(n)]
+            nums = [[((m_ if (t + (sign > 0)) % 2 == 0 else -m_) * beta, sg_ * beta) for _ in range(sz)]
+                    for t, sz in enumerate(shape)]
         order = gen.random_weak_order(rng, n)
-        if rng.random() < 0.3:      # the favourite finishing first / last
+        if rng.random() < 0.5:      # the favourite finishing first / last
             th = [sum(m for m, _ in t) for t in nums]
             order = [sorted(th, reverse=rng.random() < 0.5).index(x) for x in th]
         op = ["rate", "rate", "pwin", "pdraw", "prank"][i % 5]
@@ -594,9 +602,12 @@ def mon_C09(rng, budget, tier):
         st, nums = _predict_game(rng)
         n = len(nums)
         share = rng.random() < 0.3
-        case = {"kind": kind, "st": st, "nums": nums, "share": share}
+        # half of the time all calls of this iteration go through ONE model object (the same players, by id,
+        # come back with other values / in another order): nothing may be remembered between calls
+        one_model = make_model(kind, st) if i % 2 == 0 else None
+        case = {"kind": kind, "st": st, "nums": nums, "share": share, "one_model_object": one_model is not None}
         mon.case(case, n > 2)
-        p = call_predict("pwin", kind, st, nums, share=share)
+        p = call_predict("pwin", kind, st, nums, share=share, model=one_model)
         if len(p) != n:
             mon.fail("one number per team", case, "%d teams, %d probabilities" % (n, len(p)), p)
             continue
@@ -614,7 +625,7 @@ def mon_C09(rng, budget, tier):
         # permutation
         perm = list(range(n))
         rng.shuffle(perm)
-        q = call_predict("pwin", kind, st, [nums[o] for o in perm])
+        q = call_predict("pwin", kind, st, [nums[o] for o in perm], model=one_model)
         if len(q) == n and any(abs(q[new] - p[o]) > 1e-12 for new, o in enumerate(perm)):
             mon.fail("permutation", case, "perm %s: %s vs %s" % (perm, p, q))
         # monotonicity in one member's mu; slack: one rounding of Phi per opponent, of the division and the sum
@@ -623,13 +634,42 @@ def mon_C09(rng, budget, tier):
         inc = rng.choice([1e-6, 1e-3, 0.1, 1.0, 5.0]) * st["beta"]
         up = [list(t) for t in nums]
         up[a][j] = (up[a][j][0] + inc, up[a][j][1])
-        q = call_predict("pwin", kind, st, up)
+        if one_model is not None:
+            p = call_predict("pwin", kind, st, nums, model=one_model)
+        q = call_predict("pwin", kind, st, up, model=one_model)
         sl = 4e-16 * n
         if q[a] < p[a] - sl:
             mon.fail("raising mu lowers own probability", case, "team %d player %d +%r: %r -> %r" % (a, j, inc, p[a], q[a]))
         for b in range(n):
             if b != a and q[b] > p[b] + sl:
                 mon.fail("raising mu raises another team", case, "team %d player %d +%r: team %d %r -> %r" % (a, j, inc, b, p[b], q[b]))
+    # the very same team list object entered at several positions (mirror matches, [team] * k)
+    for it in range(min(400, budget // 5)):
+        if mon.full:
+            break
+        kind = KINDS[it % 5]
+        st, nums = _predict_game(rng)
+        n = len(nums)
+        if n < 3 and rng.random() < 0.7:
+            nums = nums + [nums[0]]
+            n += 1
+        src = rng.randrange(n)
+        dst = [j for j in range(n) if j != src and rng.random() < 0.5] or [(src + 1) % n]
+        for j in dst:
+            nums[j] = nums[src]
+        alias = [(j, src) for j in dst]
+        case = {"kind": kind, "st": st, "nums": nums, "alias": alias}
+        mon.case(case)
+        mon.count("aliased team objects")
+        for op in ("pwin", "pdraw", "prank"):
+            a = call_predict(op, kind, st, nums, alias=alias)
+            b = call_predict(op, kind, st, nums)
+            if repr(a) != repr(b):
+                mon.fail("result depends on object identity of the team lists", case,
+                         "%s with the same list object at positions %s: %r, with equal separate lists: %r" % (op, alias, a, b))
+        p = call_predict("pwin", kind, st, nums, alias=alias)
+        if abs(math.fsum(p) - 1.0) > 1e-12:
+            mon.fail("sums to one", case, "sum = %r" % math.fsum(p), p)
     # exactly-identical two-team games, many values
     for _ in range(min(200, budget // 10)):
         kind = rng.choice(KINDS)
@@ -924,12 +964,17 @@ def _do_call(m, kind, call):
     return repr(r)
 
 
-def _random_call(rng, kind, st):
+def _random_call(rng, kind, st, id_pool=None):
     shape = gen.gen_shape(rng, max_teams=4, max_size=3)
     nums = gen.gen_teams_num(rng, st, shape, ints=False)
     nums = [[(mu, sg if sg > 0 else st["beta"]) for mu, sg in t] for t in nums]
     op = rng.choice(["rate", "rate", "rate", "pwin", "pdraw", "prank"])
-    call = {"op": op, "teams": teams_val(kind, nums, ids=[gen.fresh_id() for t in nums for _ in t])}
+    cnt = sum(len(t) for t in nums)
+    if id_pool is not None and cnt <= len(id_pool):
+        ids = rng.sample(id_pool, cnt)      # the same players (ids) come back with other (mu, sigma) values
+    else:
+        ids = [gen.fresh_id() for _ in range(cnt)]
+    call = {"op": op, "teams": teams_val(kind, nums, ids=ids)}
     if op == "rate":
         call["ranks"] = ("L", [("I", r) for r in gen.random_weak_order(rng, len(shape))])
         tau, lim = gen.gen_percall(rng, st)
@@ -941,23 +986,36 @@ def _random_call(rng, kind, st):
 def mon_C14(rng, budget, tier):
     mon = Mon("C14")
     i = 0
+    fresh_jobs, fresh_got = [], []
     # (a) no call changes any attribute of the model; (b) history independence
     while mon.evaluations < budget // 2 and not mon.full:
         kind = KINDS[i % 5]
         i += 1
         st = gen.gen_state(rng)
         m = make_model(kind, st)
-        probe = _random_call(rng, kind, st)
+        pool = [900_000 + x for x in range(12)] if i % 2 == 0 else None
+        probe = _random_call(rng, kind, st, pool)
         alone = _do_call(make_model(kind, st), kind, probe)
-        hist = [_random_call(rng, kind, st) for _ in range(rng.randint(1, 5))]
+        hist = [_random_call(rng, kind, st, pool) for _ in range(rng.randint(1, 5))]
+        if i % 3 == 0:
+            # the same line-up (same ids, same shape) seen earlier with other numbers
+            h0 = dict(probe)
+            nums0 = nums_of(probe["teams"])
+            ids0 = [p[4] for t in probe["teams"][1] for p in t[1]]
+            h0["teams"] = teams_val(kind, [[(mu + st["beta"], sg * 1.5) for mu, sg in t] for t in nums0], ids=ids0)
+            hist.append(h0)
+        fresh_jobs.append((kind, st, probe))
         # a second model object with another beta making the same kind of calls first (shared caches)
         other = dict(st)
         other["beta"] = st["beta"] * rng.choice([0.5, 2.0, 3.0])
         m2 = make_model(kind, other)
         for h in hist:
             before = dict(m.__dict__)
+            try:
+                _do_call(m2, kind, h)
+            except Exception:  # noqa: BLE001
+                pass
             _do_call(m, kind, h)
-            _do_call(m2, kind, h)
             after = dict(m.__dict__)
             case = {"clause": "state", "kind": kind, "st": st, "call": h}
             mon.case(case)
@@ -967,8 +1025,19 @@ def mon_C14(rng, budget, tier):
         case = {"clause": "history", "kind": kind, "st": st, "probe": probe, "history": hist}
         mon.case(case)
         after_hist = _do_call(m, kind, probe)
+        fresh_got.append((case, after_hist))
         if after_hist != alone:
             mon.fail("result depends on earlier calls", case, "alone %s / after history %s" % (str(alone)[:300], str(after_hist)[:300]))
+    # (b') the same probes, each evaluated in a pristine interpreter state (modules re-imported): catches state kept
+    # outside the model object (module-level caches shared between model objects)
+    if fresh_jobs and not mon.full:
+        fresh = fresh_eval(fresh_jobs)
+        for (case, got), want in zip(fresh_got, fresh):
+            mon.case({"clause": "fresh-interpreter", "probe": case["probe"], "kind": case["kind"]})
+            if want is not None and got != want:
+                mon.fail("result depends on earlier calls", case,
+                         "in a fresh interpreter %s / in this process after other calls %s" % (str(want)[:300], str(got)[:300]))
+                break
     # (c) ids, names, identity
     while mon.evaluations < (budget * 3) // 4 and not mon.full:
         kind = KINDS[i % 5]
@@ -1038,6 +1107,43 @@ def mon_C14(rng, budget, tier):
                          "thread(s) %s: sequential %s / interleaved %s" % (bad, str([seq[k] for k in bad])[:300], str([out[k] for k in bad])[:300]))
                 break
     return mon
+
+
+_FRESH_SCRIPT = r"""
+import sys, json, pickle
+sys.path.insert(0, %(harness)r)
+jobs = pickle.load(open(%(jobs)r, "rb"))
+out = []
+for kind, st, call in jobs:
+    for m_ in [m for m in sys.modules if m == "openskill" or m.startswith("openskill.") or m.startswith("osv")]:
+        del sys.modules[m_]
+    from osv import impl, monitors
+    try:
+        out.append(monitors._do_call(impl.make_model(kind, st), kind, call))
+    except Exception as e:
+        out.append(None)
+json.dump(out, open(%(out)r, "w"))
+"""
+
+
+def fresh_eval(jobs):
+    """evaluate each (kind, state, call) with freshly imported library modules, in a separate process"""
+    import json
+    import pickle
+    import tempfile
+    d = tempfile.mkdtemp(dir=os.environ.get("OSV_WORK"))
+    try:
+        jp, op_ = os.path.join(d, "jobs.pkl"), os.path.join(d, "out.json")
+        pickle.dump(jobs, open(jp, "wb"))
+        code = _FRESH_SCRIPT % {"harness": os.path.dirname(os.path.dirname(__file__)), "jobs": jp, "out": op_}
+        p = subprocess.run([sys.executable, "-c", code], capture_output=True, text=True, timeout=1200)
+        if p.returncode != 0 or not os.path.exists(op_):
+            raise RuntimeError("fresh interpreter failed: " + p.stderr[-500:])
+        res = json.load(open(op_))
+        return [None if r is None else (r if isinstance(r, str) else [[tuple(x) for x in t] for t in r]) for r in res]
+    finally:
+        import shutil
+        shutil.rmtree(d, ignore_errors=True)
 
 
 _HASHSEED_SCRIPT = r"""
